@@ -254,6 +254,14 @@ impl TransactionManager {
                 continue;
             }
             if other_info.state == TxState::Committed {
+                // A transaction that committed at or before our start epoch is part of
+                // our snapshot: it does not overlap with us and cannot conflict.
+                if committed
+                    .get(other_tx)
+                    .is_some_and(|epoch| epoch.as_u64() <= our_start_epoch.as_u64())
+                {
+                    continue;
+                }
                 // Check if any of our writes conflict with their writes
                 for entity in &our_write_set {
                     if other_info.write_set.contains(entity) {
